@@ -166,6 +166,67 @@ theorem explicit_include_present {fmt : Fmt} {T : Tree} {cfg : Cfg} {ig : List S
   obtain ⟨s, hs, hsrc⟩ := src_mem_foldl_addSel (acc := []) hsel
   exact ⟨s, hs, hsrc⟩
 
+/-- **Every selected package file is there; package directories are expanded.**  For every `packages` entry that
+applies to the format (or the default package), every file of the tree that the entry's glob matches, and every file
+below a directory that the glob matches — whether the glob returned that directory alone or among several results —
+is selected, unless `is_excluded` holds for it (exclude pattern, VCS-ignored, bytecode). -/
+theorem package_directory_expanded {fmt : Fmt} {T : Tree} {cfg : Cfg} {ig : List String} {S : List Sel}
+    (h : findFilesToAdd fmt T cfg ig = .ok S)
+    {pkgs : List PkgSpec} (hpk : modulePackages fmt T cfg = .ok pkgs)
+    {pobjs iobjs : List IncObj} (hm : mkModule fmt T cfg = .ok (pobjs, iobjs))
+    {excl : List String} (hx : excludedSet fmt T cfg ig iobjs = .ok excl)
+    {spec : PkgSpec} (hspec : spec ∈ pkgs) {pat : Pattern} (hpat : parsePattern spec.incl = .ok pat)
+    {g c : Entry} (hg : g ∈ globFrom T (match spec.source with | some s => parseRel s | none => []) pat)
+    (hreach : g = c ∨ (g.isDir = true ∧ c ∈ descendants T g.path))
+    (hc : c ∈ T) (hfile : c.isDir = false) (hne : isExcluded excl c.path = false) :
+    ∃ s ∈ S, s.src = c.path := by
+  obtain ⟨L, hL, rfl⟩ := findFilesToAdd_offers h
+  obtain ⟨p', i', excl', pkgs', hm', hx', hpk', hiff⟩ := mem_offers hL
+  rw [hm] at hm'; cases hm'
+  rw [hx] at hx'; cases hx'
+  rw [hpk] at hpk'; cases hpk'
+  obtain ⟨_, _, _, pk2, hpk2, hmap⟩ := mkModule_ok hm
+  rw [hpk] at hpk2; cases hpk2
+  obtain ⟨o, _, hmk⟩ := (mapM_ok_mem hmap).2 spec hspec
+  have hgc : g.path <+: c.path := by
+    rcases hreach with rfl | ⟨_, hd⟩
+    · exact List.prefix_refl _
+    · obtain ⟨_, rel, _, hp⟩ := mem_descendants hd; exact ⟨rel, hp.symm⟩
+  have hy : Yields T excl true (match spec.source with | some s => parseRel s | none => []) pat c := by
+    refine ⟨g, hg, hc, hfile, isBytecode_false_prefix (not_excluded_prefixes hne).1 hgc, ?_⟩
+    rcases hreach with rfl | ⟨hd, hdesc⟩
+    · exact .inl ⟨rfl, fun _ => hne⟩
+    · exact .inr ⟨hd, hdesc, hne⟩
+  have hmem : mkSel fmt o c ∈ L := (hiff _).mpr (.inl ⟨spec, hspec, o, pat, hmk, hpat, c, hy, rfl⟩)
+  obtain ⟨s, hs, hsrc⟩ := src_mem_foldl_addSel (acc := []) hmem
+  exact ⟨s, hs, hsrc⟩
+
+/-- a `packages` glob returning a file and a non-empty sub-directory: the file below the sub-directory is selected -/
+def ex3Cfg : Cfg where
+  moduleName := "p"
+  rootName := "proj"
+  distName := "p"
+  version := "1.0"
+  packages := [⟨"p/*", none, none, ["sdist", "wheel"]⟩]
+  includes := []
+  excludes := []
+  readmes := []
+  scripts := []
+  hasEntryPoints := false
+
+def ex3Tree : Tree :=
+  [⟨[], true, ""⟩, ⟨["pyproject.toml"], false, "t"⟩, ⟨["p"], true, ""⟩, ⟨["p", "__init__.py"], false, "i"⟩,
+   ⟨["p", "sub"], true, ""⟩, ⟨["p", "sub", "a.py"], false, "a"⟩]
+
+def ex3Pat : Pattern := ⟨[.wild "p", .wild "*"], false⟩
+
+example : parsePattern "p/*" = .ok ex3Pat ∧
+    (⟨["p", "sub"], true, ""⟩ : Entry) ∈ globFrom ex3Tree [] ex3Pat ∧ (⟨["p", "__init__.py"], false, "i"⟩ : Entry) ∈ globFrom ex3Tree [] ex3Pat ∧
+    (⟨["p", "sub", "a.py"], false, "a"⟩ : Entry) ∈ descendants ex3Tree ["p", "sub"] ∧
+    findFilesToAdd .wheel ex3Tree ex3Cfg [] =
+      .ok [⟨["p", "__init__.py"], ["p", "__init__.py"], false⟩, ⟨["p", "sub", "a.py"], ["p", "sub", "a.py"], false⟩] :=
+  ⟨by decide +kernel, by decide +kernel, by decide +kernel, by decide +kernel, by decide +kernel⟩
+
 /-- the selection of a format: what `find_files_to_add` chose, plus (sdist) the project files -/
 theorem select_mem {fmt : Fmt} {T : Tree} {cfg : Cfg} {ig : List String} {S : List Sel}
     (h : select fmt T cfg ig = .ok S) :
